@@ -469,3 +469,67 @@ class IncludeRegion:
         for x in self.stmts + self.tests:
             out += [c for c in ast.walk(x) if isinstance(c, ast.Call) and pred(c)]
         return out
+
+
+# ------------------------------------------------------------------------------------------------ collections handed out by getters
+
+_COLLECTION_MUTATORS = ('add', 'update', 'remove', 'discard', 'pop', 'clear', 'append', 'extend', 'sort', 'insert', 'reverse', 'setdefault', 'popitem',
+                        'difference_update', 'intersection_update', 'symmetric_difference_update')
+
+
+def internal_collection_getters(ctx) -> dict[str, str]:
+    """Properties, anywhere in the repository, whose getter hands out an object the instance keeps (`return self._x` or
+    `return self._a.b`) and whose return annotation says it is a set, list or dict: {property name: class.attribute path}."""
+    out = {}
+    for q, f in ctx.repo.functions.items():
+        if f.kind not in ('property', 'cached_property') or f.cls is None:
+            continue
+        body = [s for s in f.node.body if not (isinstance(s, ast.Expr) and isinstance(s.value, ast.Constant))]
+        if len(body) != 1 or not isinstance(body[0], ast.Return) or body[0].value is None:
+            continue
+        v = body[0].value
+        cur = v
+        while isinstance(cur, ast.Attribute):
+            cur = cur.value
+        if not (isinstance(v, ast.Attribute) and isinstance(cur, ast.Name) and cur.id == 'self'):
+            continue
+        ann = unparse(f.node.returns) if f.node.returns is not None else ''
+        if any(t in ann for t in ('set', 'list', 'dict', 'Set', 'List', 'Dict')):
+            out[f.name] = f'{f.cls.name}: {unparse(v)}'
+    return out
+
+
+def no_getter_alias_mutation(ctx, prefixes, key_prefix='model'):
+    """A local that is bound to `<object>.<property>` - where the property hands out the object's own set / list / dict - is an
+    alias of that collection: changing it in place (`x |= ..`, `x.update(..)`, `x[k] = v`) changes the object for everyone."""
+    getters = internal_collection_getters(ctx)
+    n = 0
+    for q, f in sorted(ctx.repo.functions.items()):
+        if not f.module.name.startswith(tuple(prefixes)):
+            continue
+        aliases = {}
+        for a in ast.walk(f.node):
+            if isinstance(a, ast.Assign) and len(a.targets) == 1 and isinstance(a.targets[0], ast.Name) and isinstance(a.value, ast.Attribute) and a.value.attr in getters:
+                aliases[a.targets[0].id] = a
+        if not aliases:
+            continue
+        stores = {}
+        for x in ast.walk(f.node):
+            if isinstance(x, ast.Name) and isinstance(x.ctx, ast.Store):
+                stores[x.id] = stores.get(x.id, 0) + 1
+        for c in ast.walk(f.node):
+            tgt = None
+            if isinstance(c, ast.Call) and isinstance(c.func, ast.Attribute) and c.func.attr in _COLLECTION_MUTATORS and isinstance(c.func.value, ast.Name):
+                tgt = c.func.value.id
+            elif isinstance(c, ast.AugAssign) and isinstance(c.target, ast.Name):
+                tgt = c.target.id
+            elif isinstance(c, ast.Subscript) and isinstance(c.ctx, (ast.Store, ast.Del)) and isinstance(c.value, ast.Name):
+                tgt = c.value.id
+            # the alias must still be the getter's object: bound once (the in-place operator itself counts as a store)
+            if tgt in aliases and stores.get(tgt, 0) <= (2 if isinstance(c, ast.AugAssign) else 1):
+                n += 1
+                a = aliases[tgt]
+                ctx.refute(f'{key_prefix}:alias-mutated:{ctx.short(f)}:{tgt}', f.site(c), 'collections handed out by a getter are read only',
+                           f'{unparse(c)[:80]} changes {tgt}, which is {unparse(a.value)} = {getters[a.value.attr]} itself, not a copy: '
+                           f'every later reader of that property sees the change')
+    ctx.ok(f'{key_prefix}:aliases-scanned', '-', 'locals bound to collection-returning getters were scanned for in-place changes', f'{n} found; getters: {sorted(getters)}')
